@@ -4,3 +4,5 @@ import MdVerif.Props.C04Text
 #print axioms MdVerif.HtmlTok.C04_text_block_once
 #print axioms MdVerif.HtmlTok.C04_text_block_state
 #print axioms MdVerif.HtmlTok.C04_text_inline_verbatim
+#print axioms MdVerif.HtmlTok.C04_convertH_agrees
+#print axioms MdVerif.HtmlTok.C04_text_ltfree
